@@ -16,6 +16,7 @@ import json
 import random
 
 from .. import common as C
+from .. import forms as F
 from .. import gen_graph as G
 from ..oracles import sep_paths as O
 
@@ -28,7 +29,7 @@ RULE = ("random ADMGs (2-7 nodes; bidirected chains through conditioned nodes an
         "graphs, non-Variable arguments). A case is non-trivial when it is in the property's scope and either the "
         "conditioning set is non-empty or the true verdict changes when every bidirected edge is deleted.")
 ASSUMPTIONS = [
-    "the conditioning set is handed to are_d_separated in every iterable form the signature allows (list, tuple, set, frozenset, generator, iterator, dict keys, map), chosen deterministically per query; the model takes a list, so independence of the form is a runtime clause decided by correspondence + oracle (seeded/C04b)",
+    "argument FORMS (harness/forms.py), chosen deterministically per case, written into the case (`forms`) and tagged form_*: the conditioning set is handed to are_d_separated / DSeparationJudgement.create in every iterable form the signature allows (list, tuple, set, frozenset, dict keys, generator, iterator, map; an empty set also as None or omitted), with different forms for the query, the swapped query and the query on the re-shuffled graph; graph / a / b positional or by keyword; the graph built through every public constructor of NxMixedGraph (from_edges with lists / tuples / generators / iterators / sets, from_str_edges, from_adj, from_str_adj, from_latent_variable_dag, incremental add_* calls). The model takes a list, so independence of the form is a runtime clause decided by correspondence + oracle (seeded/C04b)",
     "the 'compatible models' of the last clause are the semi-Markovian models of lean/Y0/Spec/Scm.lean (Scm.Compatible: discrete "
     "variables of any cardinality, positive rational parameters, independent root latents of any arity, two observed variables "
     "share a latent only across a bidirected edge); latents with parents and non-positive distributions are outside the class",
@@ -144,7 +145,32 @@ def rand_query(rng, g):
     return a, b, Cs
 
 
+COND_FORMS = F.CONTAINERS                    # conditions: Iterable[Variable] | None
+EMPTY_FORMS = F.CONTAINERS + ("none", "omitted", "none", "omitted")
+
+
+def _slots(case):
+    kind = case["kind"]
+    if kind == "one":
+        e = EMPTY_FORMS if not case["C"] else COND_FORMS
+        return {"conditions": e, "conditions_swapped": e, "conditions_shuffled": e, "ctor": F.CTORS,
+                "ctor_shuffled": F.CTORS, "call": ("positional", "keyword")}
+    if kind == "table":
+        return {"ctor": F.CTORS}
+    if kind == "canon":
+        return {"conditions": EMPTY_FORMS if not case["conds"] else COND_FORMS, "call": ("positional", "keyword")}
+    return {}
+
+
+def _forms(case):
+    return F.forms_of(case, _slots(case))
+
+
 def cases(rng: random.Random, tier: str):
+    return [F.assign(c, _slots(c)) for c in _cases(rng, tier)]
+
+
+def _cases(rng: random.Random, tier: str):
     out = [dict(c) for c in CORPUS] + C_load_corpus()
     n_one = 9000 if tier == "quick" else 60000
     for _ in range(n_one):
@@ -209,39 +235,36 @@ def _judgement(j):
             [str(G.vint(c)) for c in j.conditions]]
 
 
-CONTAINER_FORMS = ["list", "tuple", "set", "frozenset", "generator", "iterator", "dict_keys", "map"]
+def _cell_form(a, b, Cs):
+    """verdict tables: one query per cell, the form of the conditioning set a deterministic function of the cell"""
+    opts = COND_FORMS if Cs else EMPTY_FORMS
+    return opts[(3 * a + 5 * b + 7 * len(Cs) + sum(Cs)) % len(opts)]
 
 
-def _as_container(vs, a, b):
-    """The parameter `conditions` is typed Iterable[Variable]: hand the same conditioning set over in every
-    iterable form a caller may use (one-shot iterables included).  The form is a deterministic function of the
-    query, so a case replays exactly; the verdict must not depend on it (seeded/C04b)."""
-    form = CONTAINER_FORMS[(3 * a + 5 * b + 7 * len(vs) + sum(G.vint(v) if hasattr(G, "vint") else 0 for v in vs)) % len(CONTAINER_FORMS)]
-    if form == "list":
-        return list(vs), form
-    if form == "tuple":
-        return tuple(vs), form
-    if form == "set":
-        return set(vs), form
-    if form == "frozenset":
-        return frozenset(vs), form
-    if form == "generator":
-        return (v for v in vs), form
-    if form == "iterator":
-        return iter(list(vs)), form
-    if form == "dict_keys":
-        return dict.fromkeys(vs).keys(), form
-    return map(lambda v: v, vs), form
-
-
-def _call(g, a, b, Cs):
-    import networkx as nx
+def _ads(graph, a, b, Cs, form, kw=False):
+    """are_d_separated with the conditioning set in the given form"""
     from y0.algorithm.conditional_independencies import are_d_separated
 
-    graph = G.to_nx_mixed(g)
+    if form == "omitted":
+        return are_d_separated(graph=graph, a=G.V(a), b=G.V(b)) if kw else are_d_separated(graph, G.V(a), G.V(b))
+    conds = None if form == "none" else F.container([G.V(c) for c in Cs], form)
+    if kw:
+        return are_d_separated(graph=graph, a=G.V(a), b=G.V(b), conditions=conds)
+    return are_d_separated(graph, G.V(a), G.V(b), conditions=conds)
+
+
+def _call(g, a, b, Cs, form="list", ctor="from_edges", kw=False, seed=0):
+    import networkx as nx
+
     try:
-        conds, _form = _as_container([G.V(c) for c in Cs], a, b)
-        j = are_d_separated(graph, G.V(a), G.V(b), conditions=conds)
+        graph = F.build_graph(g, ctor, seed=seed)
+    except Exception as e:  # noqa: BLE001 - every graph dict is a legal input of every constructor
+        return ["err"], f"constructor {ctor} raised {type(e).__name__}"
+    fault = F.constructor_fault(g, graph, ctor)
+    if fault:
+        return ["err"], fault
+    try:
+        j = _ads(graph, a, b, Cs, form, kw)
         return ["ok", _judgement(j)], j
     except (KeyError, TypeError, nx.NetworkXError, nx.NodeNotFound) as e:
         return ["err"], type(e).__name__
@@ -260,17 +283,18 @@ def table_order(V):
 
 
 def _run_table(case):
-    from y0.algorithm.conditional_independencies import are_d_separated
-
     g = case["g"]
-    graph = G.to_nx_mixed(g)
+    ctor = _forms(case)["ctor"]
+    graph = F.build_graph(g, ctor, seed=len(g["di"]) + 7 * len(g["bi"]))
     V = G.all_nodes(g)
     cells = []
     fails = []
     scope = O.is_acyclic(g)
+    if F.constructor_fault(g, graph, ctor):
+        return "#constructor-fault", [(V[0], V[-1], [], F.constructor_fault(g, graph, ctor), None)] if scope and V else []
     for a, b, Cs in table_order(V):
         try:
-            s = bool(are_d_separated(graph, G.V(a), G.V(b), conditions=_as_container([G.V(c) for c in Cs], a, b)[0]))
+            s = bool(_ads(graph, a, b, Cs, _cell_form(a, b, Cs), kw=(a + b) % 2 == 1))
             cells.append("t" if s else "f")
         except Exception:
             cells.append("e")
@@ -282,13 +306,27 @@ def _run_table(case):
     return "#" + "".join(cells), fails
 
 
+def _create(cls, fm, left, right, conds, sep):
+    if fm["conditions"] == "omitted":
+        return cls.create(left=left, right=right, separated=sep) if fm["call"] == "keyword" else cls.create(left, right, separated=sep)
+    cc = None if fm["conditions"] == "none" else F.container(conds, fm["conditions"])
+    if fm["call"] == "keyword":
+        return cls.create(left=left, right=right, conditions=cc, separated=sep)
+    return cls.create(left, right, cc, separated=sep)
+
+
 def _run_canon(case):
     """DSeparationJudgement built directly (possibly non-canonical) and through create()"""
     from y0.struct import DSeparationJudgement
 
     left, right, conds = G.V(case["left"]), G.V(case["right"]), tuple(G.V(c) for c in case["conds"])
     raw = DSeparationJudgement(case["sep"], left, right, conds)
-    made = DSeparationJudgement.create(left, right, conds, separated=case["sep"])
+    fm = _forms(case)
+    try:
+        made = _create(DSeparationJudgement, fm, left, right, conds, case["sep"])
+    except Exception as e:  # noqa: BLE001 - create() is total on Variables
+        return {"out": ["err"], "fail": f"DSeparationJudgement.create raised {type(e).__name__}: {str(e)[:100]}",
+                "nontrivial": False, "tags": dict({"kind": "canon"}, **F.tags(fm))}
     out = ["ok", ["true" if raw.is_canonical else "false", _judgement(made)]]
     fail = None
     want_raw = case["left"] < case["right"] and list(case["conds"]) == sorted(case["conds"])
@@ -300,7 +338,7 @@ def _run_canon(case):
             [G.vint(c) for c in made.conditions] != sorted(set(case["conds"])) or made.separated != case["sep"]:
         fail = f"create() does not carry the query: {made}"
     return {"out": out, "fail": fail, "nontrivial": len(case["conds"]) >= 2,
-            "tags": {"kind": "canon", "raw_canonical": raw.is_canonical}}
+            "tags": dict({"kind": "canon", "raw_canonical": raw.is_canonical}, **F.tags(fm))}
 
 
 def run_python(case):
@@ -319,13 +357,17 @@ def run_python(case):
             fail = (f"are_d_separated({a},{b}|{Cs}) = {s} but d-separation in the canonical latent DAG is {want} "
                     f"({len(fails)} of {len(cells) - 1} queries of this graph differ)")
         return {"out": ["ok", cells], "fail": fail, "nontrivial": bool(g["bi"]) and len(V) >= 3,
-                "tags": {"kind": "table", "n_nodes": len(V), "n_bi": min(len(g["bi"]), 6)}}
+                "tags": dict({"kind": "table", "n_nodes": len(V), "n_bi": min(len(g["bi"]), 6)}, **F.tags(_forms(case)))}
     a, b, Cs = case["a"], case["b"], case["C"]
-    out, j = _call(g, a, b, Cs)
+    fm = _forms(case)
+    kw = fm["call"] == "keyword"
+    sseed = case.get("shuffle_seed", 0)
+    out, j = _call(g, a, b, Cs, fm["conditions"], fm["ctor"], kw, sseed)
     scope = O.in_scope(g, a, b, Cs)
     fail = None
     tags = {"kind": "one", "n_nodes": len(V), "n_bi": min(len(g["bi"]), 6), "csize": len(set(Cs)), "in_scope": scope,
             "outcome": out[0] if out[0] == "err" else out[1][1]}
+    tags.update(F.tags(fm))
     nontrivial = False
     if scope:
         want = O.d_separated(g, a, b, Cs)
@@ -334,7 +376,7 @@ def run_python(case):
         tags["truth"] = want
         nontrivial = bool(Cs) or want != nobi
         if out[0] != "ok":
-            fail = f"are_d_separated raised {j} on a valid query"
+            fail = f"are_d_separated raised {j} on a valid query" if "constructor" not in str(j) else str(j)
         else:
             got = out[1][1] == "true"
             if got != want:
@@ -347,13 +389,13 @@ def run_python(case):
                     out[1][4] != [str(x) for x in sorted(set(Cs))]:
                 fail = f"judgement record {out[1]} does not carry the query ({a},{b}|{sorted(set(Cs))}) in canonical order"
         if fail is None:
-            out2, _ = _call(g, b, a, Cs)
+            out2, _ = _call(g, b, a, Cs, fm["conditions_swapped"], fm["ctor"], not kw, sseed)
             if out2 != out:
                 fail = f"not symmetric: (a,b) gives {out}, (b,a) gives {out2}"
         if fail is None:
             g2 = G.shuffled(random.Random(case.get("shuffle_seed", 0)), g)
             Cs2 = list(reversed(Cs))
-            out3, _ = _call(g2, a, b, Cs2)
+            out3, _ = _call(g2, a, b, Cs2, fm["conditions_shuffled"], fm["ctor_shuffled"], kw, sseed + 1)
             if out3 != out:
                 fail = f"depends on insertion order: {out} vs {out3} on {g2}"
         if fail is None and out[1][1] == "true" and len(V) <= 5 and len(g["bi"]) <= 4:
